@@ -489,7 +489,7 @@ func (w *World) checkpointOracle(pre, post *accountant.VerifSnap, moved map[[32]
 	for h := range moved {
 		v := moved[h]
 		vs = append(vs, &v)
-		if !v.Transaction.Spice.Empty() {
+		if !zeroSpice(v.Transaction.Spice) {
 			addrs[v.Transaction.IssuerAddress] = true
 			addrs[v.Transaction.ReceiverAddress] = true
 		}
@@ -507,7 +507,7 @@ func (w *World) checkpointOracle(pre, post *accountant.VerifSnap, moved map[[32]
 			key := "checkpoint-funds-differ-from-net-flow"
 			selfX := false
 			for _, v := range vs {
-				if v.Transaction.IssuerAddress == a && v.Transaction.ReceiverAddress == a && !v.Transaction.Spice.Empty() {
+				if v.Transaction.IssuerAddress == a && v.Transaction.ReceiverAddress == a && !zeroSpice(v.Transaction.Spice) {
 					selfX = true
 				}
 			}
